@@ -66,6 +66,9 @@ macro_rules! dispatch {
     ($prop:expr, $f:ident, $($args:expr),*) => {
         match $prop {
             "C01" => $f::<props::c01::C01>($($args),*),
+            "C02" => $f::<props::c02::C02>($($args),*),
+            "C03" => $f::<props::c03::C03>($($args),*),
+            "C04" => $f::<props::c04::C04>($($args),*),
             other => {
                 eprintln!("unknown property {other}");
                 std::process::exit(2);
